@@ -133,6 +133,25 @@ func c09(c *ctx) {
 			}
 		}
 	}
+	// the "custom" callbacks of the zero-copy upgrader: the application parses the header value itself
+	for pi, pl := range protoLists {
+		for ai, ac := range accepts {
+			for _, custom := range []string{"select", "refuse"} {
+				for _, em := range []string{"none", "custom", "customrefuse"} {
+					q := base
+					q.Protos = pl
+					q.Exts = []string{"x-a", "x-b"}
+					if pi%2 == 1 {
+						q.Exts = nil
+					}
+					cf := plain
+					cf.Accept, cf.HasSelector, cf.Custom = ac, custom == "select", custom
+					cf.ExtAccept, cf.ExtMode = []string{"x-b"}, em
+					emit(fmt.Sprintf("custom/%d/%d/%s/%s", pi, ai, custom, em), "Upgrader", q, cf)
+				}
+			}
+		}
+	}
 	// a subprotocol header that breaks the token-list grammar before any acceptable token
 	for bi, bad := range []string{"soap; chat", "; chat", "@, chat", "\"chat", "(chat)", "=chat, chat", "soap;"} {
 		for _, withExt := range []bool{false, true} {
